@@ -220,16 +220,56 @@ theorem rotateTone_ok (s e : Nat) (out : List G) (P : List K) (x : K) (hk : keys
     have htake : out.take s = (out.take e).take s := by rw [List.take_take]; congr 1; omega
     simp only [keys_append, keys_cons, keys_nil, List.append_nil, htake, keys_take, keys_drop, hP, hx]
 
+/-- all glyphs of the list carry the same cluster value -/
+def sameCluster (l : List G) : Prop := ∀ g ∈ l, ∀ h ∈ l, g.cl = h.cl
+
+theorem sameCluster_short (l : List G) (h : l.length ≤ 1) : sameCluster l := by
+  match l, h with
+  | [], _ => intro g hg; cases hg
+  | [x], _ => intro g hg h' hh; simp at hg hh; rw [hg, hh]
+
+theorem sameCluster_map_setCl (c : Nat) (l : List G) : sameCluster (l.map (setCl c)) := by
+  intro g hg h hh
+  simp only [List.mem_map] at hg hh
+  obtain ⟨g', _, rfl⟩ := hg
+  obtain ⟨h', _, rfl⟩ := hh
+  rfl
+
+theorem mergeOut_same (lvl s e : Nat) (out inp o i : List G) (hl : lvl ≠ 2) (hse : s + 2 ≤ e) (he : e = out.length)
+    (h : mergeOut lvl s e out inp = some (o, i)) : sameCluster (o.drop s) := by
+  unfold mergeOut at h
+  have h1 : ¬ e < s := by omega
+  have h2 : ¬ e - s < 2 := by omega
+  have h3 : ¬ out.length < e := by omega
+  simp only [hl, h1, h2, h3, if_false] at h
+  cases hseg : (out.take e).drop s with
+  | nil => rw [hseg] at h; cases h
+  | cons g0 tl =>
+    rw [hseg] at h
+    simp only [Option.some.injEq, Prod.mk.injEq] at h
+    obtain ⟨ho, _⟩ := h
+    subst ho
+    have hb : out.drop e = [] := by rw [he]; simp
+    rw [hb]
+    simp only [mapWhile, List.append_nil]
+    have hlen : (mapWhileBack (fun g => g.cl == g0.cl) (setCl (minCl (g0 :: tl) g0.cl)) (List.take s out)).length = s := by
+      simp; omega
+    rw [List.drop_append_of_le_length (by omega), List.drop_of_length_le (by omega), List.nil_append]
+    exact sameCluster_map_setCl _ _
+
+
 theorem closeSyllable_ok (c : Cfg) (s e : Nat) (out inp : List G) (hse : s ≤ e) (he : e ≤ out.length) :
     ∃ st', closeSyllable c s e out inp = some st' ∧ st'.start = s ∧ st'.end_ = e ∧ keys st'.out = keys out
-      ∧ keys st'.inp = keys inp ∧ st'.out.length = out.length := by
+      ∧ keys st'.inp = keys inp ∧ st'.out.length = out.length
+      ∧ (c.level = 0 → s + 2 ≤ e → e = out.length → sameCluster (st'.out.drop s)) := by
   unfold closeSyllable
   split
-  · obtain ⟨o, i, hm, hko, hki, hlo, _⟩ := mergeOut_ok c.level s e out inp hse he
+  · rename_i h0
+    obtain ⟨o, i, hm, hko, hki, hlo, _⟩ := mergeOut_ok c.level s e out inp hse he
     simp only [hm]
-    exact ⟨_, rfl, rfl, rfl, hko, hki, hlo⟩
-  · exact ⟨_, rfl, rfl, rfl, rfl, rfl, rfl⟩
-
+    exact ⟨_, rfl, rfl, rfl, hko, hki, hlo, fun _ h2 h3 => mergeOut_same c.level s e out inp o i (by omega) h2 h3 hm⟩
+  · rename_i h0
+    exact ⟨_, rfl, rfl, rfl, rfl, rfl, rfl, fun h => absurd h h0⟩
 
 theorem afterTone_view (o i : List G) :
     doneK (afterTone o i) = keys o ∧ pendK (afterTone o i) = [] ∧ Inv (afterTone o i) := by
@@ -351,7 +391,8 @@ def SylOK (c : Cfg) (st : St) (g : G) (rest : List G) (st' : St) : Prop :=
   st'.start = st.out.length ∧ st'.end_ = st'.out.length ∧
   keys st'.out = keys st.out ++ (parse (sup c) (key g) (keys rest)).1 ∧
   keys st'.inp = (keys rest).drop (parse (sup c) (key g) (keys rest)).2 ∧
-  (parse (sup c) (key g) (keys rest)).1 ≠ []
+  (parse (sup c) (key g) (keys rest)).1 ≠ [] ∧
+  (c.level = 0 → sameCluster (st'.out.drop st.out.length))
 
 theorem s_formula_0 (l v : Nat) :
     SBase + (l - LBase) * NCount + (v - VBase) * TCount + 0 = Spec.Hangul.compose l v Spec.Hangul.TBase := by
@@ -376,11 +417,13 @@ theorem stepLV_ok (c : Cfg) (st : St) (gl gv : G) (rest2 : List G) (hl : isL gl.
       obtain ⟨o, i, hrep, hko, hki, hlo, _⟩ := replaceGlyphs_ok c.level 2
         [Spec.Hangul.compose gl.cp gv.cp Spec.Hangul.TBase] st.out gl [gv] (by simp)
       simp only [hrep]
-      exact ⟨_, rfl, rfl, by simp [hlo], by simpa using hko, by simpa [key] using hki, by simp⟩
+      exact ⟨_, rfl, rfl, by simp [hlo], by simpa using hko, by simpa [key] using hki, by simp,
+          fun _ => sameCluster_short _ (by simp [hlo])⟩
     · simp only [hc, if_false]
-      obtain ⟨st', hcs, h1, h2, h3, h4, h5⟩ := closeSyllable_ok c st.out.length (st.out.length + 2)
+      obtain ⟨st', hcs, h1, h2, h3, h4, h5, h6⟩ := closeSyllable_ok c st.out.length (st.out.length + 2)
         (st.out ++ [setTag LJMO gl, setTag VJMO gv]) [] (by omega) (by simp)
-      refine ⟨st', hcs, h1, by rw [h2, h5]; simp, ?_, by simpa [key] using h4, by simp⟩
+      refine ⟨st', hcs, h1, by rw [h2, h5]; simp, ?_, by simpa [key] using h4, by simp,
+          fun h0 => h6 h0 (by omega) (by simp)⟩
       rw [h3]; simp [LJMO, VJMO, Spec.Hangul.LJMO, Spec.Hangul.VJMO]
   | cons gt rest3 =>
     by_cases hT : isT gt.cp = true
@@ -395,11 +438,13 @@ theorem stepLV_ok (c : Cfg) (st : St) (gl gv : G) (rest2 : List G) (hl : isL gl.
         obtain ⟨o, i, hrep, hko, hki, hlo, _⟩ := replaceGlyphs_ok c.level 3
           [Spec.Hangul.compose gl.cp gv.cp gt.cp] st.out gl (gv :: gt :: rest3) (by simp)
         simp only [hrep]
-        exact ⟨_, rfl, rfl, by simp [hlo], by simpa using hko, by simpa [key] using hki, by simp⟩
+        exact ⟨_, rfl, rfl, by simp [hlo], by simpa using hko, by simpa [key] using hki, by simp,
+          fun _ => sameCluster_short _ (by simp [hlo])⟩
       · simp only [hc, if_false]
-        obtain ⟨st', hcs, h1, h2, h3, h4, h5⟩ := closeSyllable_ok c st.out.length (st.out.length + 3)
+        obtain ⟨st', hcs, h1, h2, h3, h4, h5, h6⟩ := closeSyllable_ok c st.out.length (st.out.length + 3)
           (st.out ++ [setTag LJMO gl, setTag VJMO gv, setTag TJMO gt]) rest3 (by omega) (by simp)
-        refine ⟨st', hcs, h1, by rw [h2, h5]; simp, ?_, by simpa [key] using h4, by simp⟩
+        refine ⟨st', hcs, h1, by rw [h2, h5]; simp, ?_, by simpa [key] using h4, by simp,
+          fun h0 => h6 h0 (by omega) (by simp)⟩
         rw [h3]; simp [LJMO, VJMO, TJMO, Spec.Hangul.LJMO, Spec.Hangul.VJMO, Spec.Hangul.TJMO]
     · have hT' : isT gt.cp = false := by simpa using hT
       have hTS : Spec.Hangul.isT gt.cp = false := by rw [← isT_eq]; exact hT'
@@ -412,11 +457,13 @@ theorem stepLV_ok (c : Cfg) (st : St) (gl gv : G) (rest2 : List G) (hl : isL gl.
         obtain ⟨o, i, hrep, hko, hki, hlo, _⟩ := replaceGlyphs_ok c.level 2
           [Spec.Hangul.compose gl.cp gv.cp Spec.Hangul.TBase] st.out gl (gv :: gt :: rest3) (by simp)
         simp only [hrep]
-        exact ⟨_, rfl, rfl, by simp [hlo], by simpa using hko, by simpa [key] using hki, by simp⟩
+        exact ⟨_, rfl, rfl, by simp [hlo], by simpa using hko, by simpa [key] using hki, by simp,
+          fun _ => sameCluster_short _ (by simp [hlo])⟩
       · simp only [hc, if_false]
-        obtain ⟨st', hcs, h1, h2, h3, h4, h5⟩ := closeSyllable_ok c st.out.length (st.out.length + 2)
+        obtain ⟨st', hcs, h1, h2, h3, h4, h5, h6⟩ := closeSyllable_ok c st.out.length (st.out.length + 2)
           (st.out ++ [setTag LJMO gl, setTag VJMO gv]) (gt :: rest3) (by omega) (by simp)
-        refine ⟨st', hcs, h1, by rw [h2, h5]; simp, ?_, by simpa [key] using h4, by simp⟩
+        refine ⟨st', hcs, h1, by rw [h2, h5]; simp, ?_, by simpa [key] using h4, by simp,
+          fun h0 => h6 h0 (by omega) (by simp)⟩
         rw [h3]; simp [LJMO, VJMO, Spec.Hangul.LJMO, Spec.Hangul.VJMO]
 
 
@@ -464,24 +511,24 @@ theorem tagOut_three (a : List G) (x y z : G) :
 theorem finishDecomposed_two (c : Cfg) (a : List G) (x y : G) (inp : List G) :
     ∃ st', finishDecomposed c a.length 2 (a ++ [x, y]) inp = some st' ∧ st'.start = a.length
       ∧ st'.end_ = st'.out.length ∧ keys st'.out = keys a ++ [(x.cp, Spec.Hangul.LJMO), (y.cp, Spec.Hangul.VJMO)]
-      ∧ keys st'.inp = keys inp := by
+      ∧ keys st'.inp = keys inp ∧ (c.level = 0 → sameCluster (st'.out.drop a.length)) := by
   unfold finishDecomposed
   rw [tagOut_two]
-  obtain ⟨st', hcs, h1, h2, h3, h4, h5⟩ := closeSyllable_ok c a.length (a.length + 2)
+  obtain ⟨st', hcs, h1, h2, h3, h4, h5, h6⟩ := closeSyllable_ok c a.length (a.length + 2)
     (a ++ [setTag LJMO x, setTag VJMO y]) inp (by omega) (by simp)
-  refine ⟨st', hcs, h1, by rw [h2, h5]; simp, ?_, h4⟩
+  refine ⟨st', hcs, h1, by rw [h2, h5]; simp, ?_, h4, fun h0 => h6 h0 (by omega) (by simp)⟩
   rw [h3]; simp [LJMO, VJMO, Spec.Hangul.LJMO, Spec.Hangul.VJMO]
 
 theorem finishDecomposed_three (c : Cfg) (a : List G) (x y z : G) (inp : List G) :
     ∃ st', finishDecomposed c a.length 3 (a ++ [x, y, z]) inp = some st' ∧ st'.start = a.length
       ∧ st'.end_ = st'.out.length
       ∧ keys st'.out = keys a ++ [(x.cp, Spec.Hangul.LJMO), (y.cp, Spec.Hangul.VJMO), (z.cp, Spec.Hangul.TJMO)]
-      ∧ keys st'.inp = keys inp := by
+      ∧ keys st'.inp = keys inp ∧ (c.level = 0 → sameCluster (st'.out.drop a.length)) := by
   unfold finishDecomposed
   rw [tagOut_three]
-  obtain ⟨st', hcs, h1, h2, h3, h4, h5⟩ := closeSyllable_ok c a.length (a.length + 3)
+  obtain ⟨st', hcs, h1, h2, h3, h4, h5, h6⟩ := closeSyllable_ok c a.length (a.length + 3)
     (a ++ [setTag LJMO x, setTag VJMO y, setTag TJMO z]) inp (by omega) (by simp)
-  refine ⟨st', hcs, h1, by rw [h2, h5]; simp, ?_, h4⟩
+  refine ⟨st', hcs, h1, by rw [h2, h5]; simp, ?_, h4, fun h0 => h6 h0 (by omega) (by simp)⟩
   rw [h3]; simp [LJMO, VJMO, TJMO, Spec.Hangul.LJMO, Spec.Hangul.VJMO, Spec.Hangul.TJMO]
 
 theorem isS_not_L {u : Nat} (h : Spec.Hangul.isS u = true) : Spec.Hangul.isL u = false := by
@@ -511,7 +558,7 @@ theorem stepS_ok (c : Cfg) (st : St) (g : G) (rest : List G) (hS : isCombinedS g
     by_cases hh : c.has g.cp = true
     · -- the font has S: keep it
       simp only [hh, Bool.not_true, Bool.false_and, Bool.false_eq_true, if_false, if_true]
-      refine ⟨_, rfl, Or.inr ⟨rfl, by simp, by simp [key], by simp, by simp⟩⟩
+      refine ⟨_, rfl, Or.inr ⟨rfl, by simp, by simp [key], by simp, by simp, fun _ => sameCluster_short _ (by simp)⟩⟩
     · have hh' : c.has g.cp = false := by simpa using hh
       simp only [hh', Bool.not_false, Bool.true_and, Bool.false_and, Bool.false_eq_true, if_false]
       by_cases hj : (c.has (Spec.Hangul.decompL g.cp) && c.has (Spec.Hangul.decompV g.cp) &&
@@ -523,10 +570,10 @@ theorem stepS_ok (c : Cfg) (st : St) (g : G) (rest : List G) (hS : isCombinedS g
           obtain ⟨o1, g1, i, hrep, hko, hlo, _, hki⟩ := replaceGlyphs_struct c.level 1
             [Spec.Hangul.decompL g.cp, Spec.Hangul.decompV g.cp] st.out g [] (by simp)
           simp only [hrep, List.map]
-          obtain ⟨st', hf, h1, h2, h3, h4⟩ := finishDecomposed_two c o1
+          obtain ⟨st', hf, h1, h2, h3, h4, h7⟩ := finishDecomposed_two c o1
             (setCp (Spec.Hangul.decompL g.cp) g1) (setCp (Spec.Hangul.decompV g.cp) g1) i
           rw [← hlo, hf]
-          refine ⟨st', rfl, Or.inr ⟨by rw [h1, hlo], h2, ?_, by simpa using (h4.trans hki), by simp⟩⟩
+          refine ⟨st', rfl, Or.inr ⟨by rw [h1, hlo], h2, ?_, by simpa using (h4.trans hki), by simp, fun h0 => h7 h0⟩⟩
           rw [h3, hko]; simp [setCp]
         · have hlv' : ((g.cp - Spec.Hangul.SBase) % Spec.Hangul.TCount == 0) = false := by simpa using hlv
           have hb : ((g.cp - Spec.Hangul.SBase) % Spec.Hangul.TCount != 0) = true := by simp [bne, hlv']
@@ -534,11 +581,11 @@ theorem stepS_ok (c : Cfg) (st : St) (g : G) (rest : List G) (hS : isCombinedS g
           obtain ⟨o1, g1, i, hrep, hko, hlo, _, hki⟩ := replaceGlyphs_struct c.level 1
             [Spec.Hangul.decompL g.cp, Spec.Hangul.decompV g.cp, Spec.Hangul.decompT g.cp] st.out g [] (by simp)
           simp only [hrep, List.map]
-          obtain ⟨st', hf, h1, h2, h3, h4⟩ := finishDecomposed_three c o1
+          obtain ⟨st', hf, h1, h2, h3, h4, h7⟩ := finishDecomposed_three c o1
             (setCp (Spec.Hangul.decompL g.cp) g1) (setCp (Spec.Hangul.decompV g.cp) g1)
             (setCp (Spec.Hangul.decompT g.cp) g1) i
           rw [← hlo, hf]
-          refine ⟨st', rfl, Or.inr ⟨by rw [h1, hlo], h2, ?_, by simpa using (h4.trans hki), by simp⟩⟩
+          refine ⟨st', rfl, Or.inr ⟨by rw [h1, hlo], h2, ?_, by simpa using (h4.trans hki), by simp, fun h0 => h7 h0⟩⟩
           rw [h3, hko]; simp [setCp]
       · have hj' : (c.has (Spec.Hangul.decompL g.cp) && c.has (Spec.Hangul.decompV g.cp) &&
                   ((g.cp - Spec.Hangul.SBase) % Spec.Hangul.TCount == 0 || c.has (Spec.Hangul.decompT g.cp))) = false := by
@@ -558,7 +605,8 @@ theorem stepS_ok (c : Cfg) (st : St) (g : G) (rest : List G) (hS : isCombinedS g
         obtain ⟨o, i, hrep, hko, hki, hlo, _⟩ := replaceGlyphs_ok c.level 2
           [g.cp + (gt.cp - Spec.Hangul.TBase)] st.out g (gt :: rest') (by simp)
         simp only [hrep]
-        exact ⟨_, rfl, Or.inr ⟨rfl, by simp [hlo], by simpa using hko, by simpa using hki, by simp⟩⟩
+        exact ⟨_, rfl, Or.inr ⟨rfl, by simp [hlo], by simpa using hko, by simpa using hki, by simp,
+          fun _ => sameCluster_short _ (by simp [hlo])⟩⟩
       · have hcomp' : (Spec.Hangul.isCombiningT gt.cp && c.has (g.cp + (gt.cp - Spec.Hangul.TBase))) = false := by
           simpa using hcomp
         simp only [hcomp', Bool.false_eq_true, if_false]
@@ -575,16 +623,16 @@ theorem stepS_ok (c : Cfg) (st : St) (g : G) (rest : List G) (hS : isCombinedS g
             | cons gt1 r1 =>
               simp only [List.drop, keys_cons, List.cons.injEq] at hki
               simp only [List.append_assoc, List.cons_append, List.nil_append]
-              obtain ⟨st', hf, h1, h2, h3, h4⟩ := finishDecomposed_three c o1
+              obtain ⟨st', hf, h1, h2, h3, h4, h7⟩ := finishDecomposed_three c o1
                 (setCp (Spec.Hangul.decompL g.cp) g1) (setCp (Spec.Hangul.decompV g.cp) g1) gt1 r1
               rw [← hlo, hf]
-              refine ⟨st', rfl, Or.inr ⟨by rw [h1, hlo], h2, ?_, by simpa using (h4.trans hki.2), by simp⟩⟩
+              refine ⟨st', rfl, Or.inr ⟨by rw [h1, hlo], h2, ?_, by simpa using (h4.trans hki.2), by simp, fun h0 => h7 h0⟩⟩
               have hc1 : gt1.cp = gt.cp := congrArg Prod.fst hki.1
               rw [h3, hko]; simp [setCp, hc1]
           · have hTj' : (Spec.Hangul.isT gt.cp && (c.has (Spec.Hangul.decompL g.cp) && c.has (Spec.Hangul.decompV g.cp))) = false := by
               simpa using hTj
             simp only [hTj', Bool.false_eq_true, if_false, if_true]
-            refine ⟨_, rfl, Or.inr ⟨rfl, by simp, by simp [key], by simp [key], by simp⟩⟩
+            refine ⟨_, rfl, Or.inr ⟨rfl, by simp, by simp [key], by simp [key], by simp, fun _ => sameCluster_short _ (by simp)⟩⟩
         · have hh' : c.has g.cp = false := by simpa using hh
           simp only [hh', Bool.not_false, Bool.true_or, Bool.true_and, Bool.and_false, Bool.false_and, Bool.false_eq_true, if_false]
           by_cases hj : (c.has (Spec.Hangul.decompL g.cp) && c.has (Spec.Hangul.decompV g.cp)) = true
@@ -592,10 +640,10 @@ theorem stepS_ok (c : Cfg) (st : St) (g : G) (rest : List G) (hS : isCombinedS g
             obtain ⟨o1, g1, i, hrep, hko, hlo, _, hki⟩ := replaceGlyphs_struct c.level 1
               [Spec.Hangul.decompL g.cp, Spec.Hangul.decompV g.cp] st.out g (gt :: rest') (by simp)
             simp only [hrep, List.map]
-            obtain ⟨st', hf, h1, h2, h3, h4⟩ := finishDecomposed_two c o1
+            obtain ⟨st', hf, h1, h2, h3, h4, h7⟩ := finishDecomposed_two c o1
               (setCp (Spec.Hangul.decompL g.cp) g1) (setCp (Spec.Hangul.decompV g.cp) g1) i
             rw [← hlo, hf]
-            refine ⟨st', rfl, Or.inr ⟨by rw [h1, hlo], h2, ?_, by simpa [key] using (h4.trans hki), by simp⟩⟩
+            refine ⟨st', rfl, Or.inr ⟨by rw [h1, hlo], h2, ?_, by simpa [key] using (h4.trans hki), by simp, fun h0 => h7 h0⟩⟩
             rw [h3, hko]; simp [setCp]
           · have hj' : (c.has (Spec.Hangul.decompL g.cp) && c.has (Spec.Hangul.decompV g.cp)) = false := by simpa using hj
             simp only [hj', Bool.false_eq_true, if_false]
@@ -605,7 +653,7 @@ theorem stepS_ok (c : Cfg) (st : St) (g : G) (rest : List G) (hS : isCombinedS g
       simp only [hlv', hb, Bool.false_and, Bool.false_or, Bool.or_false, Bool.and_false, if_true, Bool.false_eq_true, if_false, List.take]
       by_cases hh : c.has g.cp = true
       · simp only [hh, Bool.not_true, Bool.false_and, Bool.false_eq_true, if_false, if_true]
-        refine ⟨_, rfl, Or.inr ⟨rfl, by simp, by simp [key], by simp [key], by simp⟩⟩
+        refine ⟨_, rfl, Or.inr ⟨rfl, by simp, by simp [key], by simp [key], by simp, fun _ => sameCluster_short _ (by simp)⟩⟩
       · have hh' : c.has g.cp = false := by simpa using hh
         simp only [hh', Bool.not_false, Bool.true_and, Bool.false_and, Bool.false_eq_true, if_false]
         by_cases hj : (c.has (Spec.Hangul.decompL g.cp) && c.has (Spec.Hangul.decompV g.cp) && c.has (Spec.Hangul.decompT g.cp)) = true
@@ -613,11 +661,11 @@ theorem stepS_ok (c : Cfg) (st : St) (g : G) (rest : List G) (hS : isCombinedS g
           obtain ⟨o1, g1, i, hrep, hko, hlo, _, hki⟩ := replaceGlyphs_struct c.level 1
             [Spec.Hangul.decompL g.cp, Spec.Hangul.decompV g.cp, Spec.Hangul.decompT g.cp] st.out g (gt :: rest') (by simp)
           simp only [hrep, List.map]
-          obtain ⟨st', hf, h1, h2, h3, h4⟩ := finishDecomposed_three c o1
+          obtain ⟨st', hf, h1, h2, h3, h4, h7⟩ := finishDecomposed_three c o1
             (setCp (Spec.Hangul.decompL g.cp) g1) (setCp (Spec.Hangul.decompV g.cp) g1)
             (setCp (Spec.Hangul.decompT g.cp) g1) i
           rw [← hlo, hf]
-          refine ⟨st', rfl, Or.inr ⟨by rw [h1, hlo], h2, ?_, by simpa [key] using (h4.trans hki), by simp⟩⟩
+          refine ⟨st', rfl, Or.inr ⟨by rw [h1, hlo], h2, ?_, by simpa [key] using (h4.trans hki), by simp, fun h0 => h7 h0⟩⟩
           rw [h3, hko]; simp [setCp]
         · have hj' : (c.has (Spec.Hangul.decompL g.cp) && c.has (Spec.Hangul.decompV g.cp) && c.has (Spec.Hangul.decompT g.cp)) = false := by
             simpa using hj
@@ -663,7 +711,7 @@ theorem step_sim (c : Cfg) (st : St) (g : G) (rest : List G) (hi : st.inp = g ::
       by_cases hv : isV gv.cp = true
       · simp only [hv, if_true]
         obtain ⟨st', hs, h1, h2, h3, h4, h5⟩ := stepLV_ok c st g gv rest2 hl hv
-        exact ⟨st', hs, sim_syllable c st g (gv :: rest2) st' ht' h5 h1 h2 h3 h4⟩
+        exact ⟨st', hs, sim_syllable c st g (gv :: rest2) st' ht' h5.1 h1 h2 h3 h4⟩
       · have hv' : isV gv.cp = false := by simpa using hv
         simp only [hv', Bool.false_eq_true, if_false]
         refine ⟨_, rfl, sim_fallThrough c st g (gv :: rest2) hinv ht' ?_⟩
@@ -676,7 +724,7 @@ theorem step_sim (c : Cfg) (st : St) (g : G) (rest : List G) (hi : st.inp = g ::
       refine ⟨st', hst, ?_⟩
       cases hor with
       | inl h => rw [h.2]; exact sim_fallThrough c st g rest hinv ht' h.1
-      | inr h => exact sim_syllable c st g rest st' ht' h.2.2.2.2 h.1 h.2.1 h.2.2.1 h.2.2.2.1
+      | inr h => exact sim_syllable c st g rest st' ht' h.2.2.2.2.1 h.1 h.2.1 h.2.2.1 h.2.2.2.1
     · have hs' : isCombinedS g.cp = false := by simpa using hs
       simp only [hs', Bool.false_eq_true, if_false]
       refine ⟨_, rfl, sim_fallThrough c st g rest hinv ht' ?_⟩
@@ -1009,5 +1057,35 @@ theorem known_step2 :
     step jamoFont { out := [⟨0x1100, 0, 1⟩, ⟨0x1161, 0, 2⟩], inp := [⟨0x11A8, 1, 0⟩], start := 0, end_ := 2 }
     = some { out := [⟨0x1100, 0, 1⟩, ⟨0x1161, 0, 2⟩, ⟨0x11A8, 1, 0⟩], inp := [], start := 2, end_ := 2 } := by decide
 
+
+
+/-- an iteration on a non-tone glyph at which the parser recognises a syllable -/
+theorem step_syllable (c : Cfg) (st : St) (g : G) (rest : List G) (hi : st.inp = g :: rest)
+    (ht' : isTone g.cp = false) (hp : (parse (sup c) (key g) (keys rest)).1 ≠ []) :
+    ∃ st', step c st = some st' ∧ SylOK c st g rest st' := by
+  unfold step
+  rw [hi]
+  simp only [ht', Bool.false_eq_true, if_false]
+  by_cases hl : isL g.cp = true
+  · have hlS : Spec.Hangul.isL (key g).1 = true := by rw [← isL_eq]; exact hl
+    cases rest with
+    | nil => exact absurd (parse_L_end _ _ hlS) hp
+    | cons gv rest2 =>
+      simp only [hl, List.isEmpty_cons, Bool.not_false, Bool.and_true, if_true]
+      by_cases hv : isV gv.cp = true
+      · simp only [hv, if_true]
+        exact stepLV_ok c st g gv rest2 hl hv
+      · have hv' : isV gv.cp = false := by simpa using hv
+        exact absurd (parse_L_nonV _ _ _ _ hlS (by rw [← isV_eq]; exact hv')) hp
+  · have hl' : isL g.cp = false := by simpa using hl
+    simp only [hl', Bool.false_and, Bool.false_eq_true, if_false]
+    by_cases hs : isCombinedS g.cp = true
+    · simp only [hs, if_true]
+      obtain ⟨st', hst, hor⟩ := stepS_ok c st g rest hs
+      cases hor with
+      | inl h => exact absurd h.1 hp
+      | inr h => exact ⟨st', hst, h⟩
+    · have hs' : isCombinedS g.cp = false := by simpa using hs
+      exact absurd (parse_other _ _ _ (by rw [← isL_eq]; exact hl') (by rw [← isCombinedS_eq]; exact hs')) hp
 
 end RbModel.Hangul
